@@ -131,7 +131,7 @@ thread_local! {
     static CLOSURE_RETRY: RefCell<Option<BTreeMap<String, (usize, Option<u64>)>>> = const { RefCell::new(None) };
 }
 
-fn which_custom(
+pub fn which_custom(
     _f: &gherkin::Feature,
     _r: Option<&gherkin::Rule>,
     s: &gherkin::Scenario,
